@@ -1,12 +1,119 @@
 import Driver.Util
-/- Line-protocol handler for the `wire` model (stub until the model exists). -/
+import Munge.Model.Wire
+/- Line-protocol handler for the `wire` model (message codec, C14); same protocol as harness/h_wire.c. -/
 namespace Driver.Wire
+open Munge Munge.Wire Munge.Gen.Wire
 
 structure St where
-  dummy : Unit := ()
+  /-- `malloc (n)` succeeds iff `n ≤ limit` (the harness runs under ASan's max_allocation_size_mb) -/
+  limit : Nat := 67108864
 
 def init : St := {}
 
-def step (st : St) (_args : List String) : St × String := (st, "bad-op")
+/-- integer members printed by the harness, in its order -/
+def dumpInts : List String :=
+  ["type", "retry", "pkt_len", "cipher", "mac", "zip", "realm_len", "ttl", "addr_len", "time0", "time1",
+   "client_uid", "client_gid", "cred_uid", "cred_gid", "auth_uid", "auth_gid", "data_len", "auth_s_len",
+   "auth_c_len", "error_num"]
+
+/-- pointer members printed by the harness with the member holding their length -/
+def dumpPtrs : List (String × String) :=
+  [("realm_str", "realm_len"), ("data", "data_len"), ("auth_s_str", "auth_s_len"), ("auth_c_str", "auth_c_len")]
+
+def showPtr (m : Msg) (full : Bool) (f l : String) : String :=
+  match m.buf f with
+  | none => s!" {f}=null"
+  | some d => if full then s!" {f}={Hex.showHex (d.take (m.int l))}" else s!" {f}=set"
+
+def dump (m : Msg) (full : Bool) : String :=
+  let ints := String.join (dumpInts.map fun f => s!" {f}={m.int f}")
+  let el := if full then s!" error_len={m.int "error_len"}" else ""
+  let ptrs := String.join (dumpPtrs.map fun (f, l) => showPtr m full f l)
+  let es := if full then showPtr m full "error_str" "error_len" else ""
+  s!"{ints}{el} addr={Hex.showHex (m.fix "addr")}{ptrs}{es}"
+
+def fixCap (f : String) : Nat := ((fixMembers.find? (·.1 == f)).map (·.2)).getD 0
+
+def setField (m : Msg) (tok : String) : Option Msg :=
+  match tok.splitOn "=" with
+  | [k, v] =>
+      if ptrMembers.contains k then (Hex.ofHex v).map fun b => m.setBuf k (some b)
+      else if (fixMembers.map (·.1)).contains k then
+        (Hex.ofHex v).map fun b => m.setFix k (b.take (fixCap k) ++ (m.fix k).drop b.length)
+      else v.toNat?.map fun n => m.setInt k n
+  | _ => none
+
+def setFields (m : Msg) (toks : List String) : Option Msg :=
+  toks.foldlM setField m
+
+def oobMark (st : USt) (n : Nat) : String := if st.oob n then " MODEL-OOB" else ""
+
+def doUnpack (mok : Nat → Bool) (t : Nat) (b : List UInt8) : String :=
+  let (rc, st) := unpack mok t Msg.fresh b b.length
+  s!"rc={rc}{dump st.m (rc == EMUNGE_SUCCESS)}{oobMark st b.length}"
+
+def doRt (mok : Nat → Bool) (t : Nat) (m : Msg) : String :=
+  let n := length t m
+  if n ≤ 0 then s!"n={n}" else
+  let (rc, m', out) := pack t m n
+  if rc ≠ EMUNGE_SUCCESS then s!"n={n} rc={rc} err={m'.int "error_num"}" else
+  let (urc, st) := unpack mok t Msg.fresh out out.length
+  s!"n={n} rc={rc} out={Hex.showHex out} urc={urc}{dump st.m (urc == EMUNGE_SUCCESS)}{oobMark st out.length}"
+
+def doRecv (mok : Nat → Bool) (type : Nat) (maxlen : Int) (s : List UInt8) : String :=
+  let r := recv mok Msg.fresh type maxlen s
+  let oob := match r.body with | some st => oobMark st (r.consumed - recvHdrLen) | none => ""
+  s!"rc={r.rc} pkt={if r.pktSet then "set" else "null"} left={s.length - r.consumed}{dump r.m (r.rc == EMUNGE_SUCCESS)}{oob}"
+
+def doSend (mok : Nat → Bool) (t : Nat) (maxlen : Int) (m : Msg) : String :=
+  let (rc, m', out) := send mok m t maxlen
+  s!"rc={rc} err={m'.int "error_num"} pkt_len={m'.int "pkt_len"} out={Hex.showHex out}"
+
+def doSetErr (seq : String) : String :=
+  let calls := (seq.splitOn ",").map fun tok =>
+    match tok.splitOn ":" with
+    | [e, s] => (e.toNat?, if s == "null" then some none else (Hex.ofHex s).map some)
+    | _ => (none, none)
+  if calls.any (fun c => c.1.isNone || c.2.isNone) then "bad-op" else
+  let (m, rets) := calls.foldl (fun (acc : Msg × List Int) c =>
+    let (m', r) := setErr acc.1 (c.1.getD 0) (c.2.getD none)
+    (m', acc.2 ++ [r])) (Msg.fresh, [])
+  let es := match m.buf "error_str" with | none => "null" | some d => Hex.showHex d
+  s!"ret={String.intercalate "," (rets.map toString)} error_num={m.int "error_num"} error_len={m.int "error_len"} error_str={es}"
+
+def doReset (m : Msg) : String :=
+  let m' := reset m
+  s!"reset{dump m' true} realm_is_copy={m'.int "realm_is_copy"} data_is_copy={m'.int "data_is_copy"}"
+
+def step (st : St) (args : List String) : St × String :=
+  let mok : Nat → Bool := fun n => decide (n ≤ st.limit)
+  match args with
+  | ["limit", n] => match n.toNat? with
+    | some n => ({ st with limit := n }, "ok")
+    | none => (st, "bad-op")
+  | _ =>
+  (st, match args with
+  | "rt" :: t :: fields =>
+      match t.toNat?, setFields Msg.fresh fields with
+      | some t, some m => doRt mok t m
+      | _, _ => "bad-op"
+  | ["unpack", t, h] =>
+      match t.toNat?, hexArg h with
+      | some t, some b => doUnpack mok t b
+      | _, _ => "bad-op"
+  | ["recv", t, ml, h] =>
+      match t.toNat?, ml.toInt?, hexArg h with
+      | some t, some ml, some b => doRecv mok t ml b
+      | _, _, _ => "bad-op"
+  | "send" :: t :: ml :: fields =>
+      match t.toNat?, ml.toInt?, setFields Msg.fresh fields with
+      | some t, some ml, some m => doSend mok t ml m
+      | _, _, _ => "bad-op"
+  | ["seterr", seq] => doSetErr seq
+  | "reset" :: fields =>
+      match setFields Msg.fresh fields with
+      | some m => doReset m
+      | none => "bad-op"
+  | _ => "bad-op")
 
 end Driver.Wire
